@@ -555,6 +555,30 @@ func genStageCache(r *Rand) []string {
 			ops = append(ops, fmt.Sprintf("settle %d", tick()))
 		}
 	}
+	if r.Chance(0.5) {
+		// a NEW version of a name whose earlier delivery is known only from the log is partly received, its
+		// partial goes stale (sender stalled for more than a day) and the stray cleaner runs: only a partial of
+		// the DELIVERED version may go
+		o := olds[r.Intn(len(olds))]
+		g := genFile(r, o.f.name, "")
+		g.renamed = o.f.renamed
+		if r.Chance(0.25) {
+			g = o.f // the delivered version itself: a stale duplicate, may be removed
+		}
+		ops = append(ops, fmt.Sprintf("prepare %s %d %d", esc(g.name), len(g.body), tick()))
+		b, e := g.cuts[0], g.cuts[1]
+		ops = append(ops, fmt.Sprintf("recv %s %d %d %s %d", g.meta(), b, e, tokOrDash(g.body[b:e]), tick()))
+		ops = append(ops, fmt.Sprintf("chtime %s part %d", esc(g.name), []int{-3600, -90000, -200000, -400000}[r.Intn(4)]))
+		if r.Chance(0.5) {
+			ops = append(ops, fmt.Sprintf("cleancache %d", tick()))
+		}
+		ops = append(ops, "observe", fmt.Sprintf("cleanstrays %d", tick()), "observe", "scan")
+		for k := 1; k+1 < len(g.cuts); k++ {
+			b, e := g.cuts[k], g.cuts[k+1]
+			ops = append(ops, fmt.Sprintf("recv %s %d %d %s %d", g.meta(), b, e, tokOrDash(g.body[b:e]), tick()))
+		}
+		ops = append(ops, fmt.Sprintf("settle %d", tick()), "observe")
+	}
 	// the sender retransmits an old delivery (it asks first, as handleSendError / recover do)
 	o := olds[r.Intn(len(olds))]
 	ft := -(o.age + 50)
